@@ -39,11 +39,13 @@ def key_of(size, x, y, z):
 # around the SUBJECT within the cutoff that site applies (never more than the cell size).
 USE_SITES = {
     # code name of the function that iterates the block: (local variable holding the subject, cutoff or None = cell size)
-    "optimize_hydrogens": ("atom", 4.3),
-    "find_nearby_atoms": ("atom", "bump"),
-    "get_bump_score_atom": ("atom", "bump"),
-    "get_closest_atom": ("atom", None),
-    "finalize": (("bondedatom", "atom"), None),  # Carboxylic.finalize / Alcoholic.finalize
+    # third entry: partners the site discards before looking at the distance ("residue" = atoms of the
+    # subject's own residue, "bonded" = same residue and bonded to the subject); they do not count
+    "optimize_hydrogens": ("atom", 4.3, "residue"),
+    "find_nearby_atoms": ("atom", "bump", "bonded"),
+    "get_bump_score_atom": ("atom", "bump", "bonded"),
+    "get_closest_atom": ("atom", None, "residue"),
+    "finalize": (("bondedatom", "atom"), None, None),  # Carboxylic.finalize / Alcoholic.finalize
 }
 
 
@@ -116,7 +118,7 @@ class CellMonitor:
             if "/pdb2pqr/" in fn and code.co_name != "get_near_cells":
                 self.use_unknown[site] = self.use_unknown.get(site, 0) + 1
             return
-        var, cutoff = spec
+        var, cutoff, skip = spec
         subject = None
         for v in (var if isinstance(var, tuple) else (var,)):
             if v in frame.f_locals:
@@ -147,6 +149,10 @@ class CellMonitor:
         for residue in bio.residues:
             for b in residue.atoms:
                 if b is subject or id(b) in have:
+                    continue
+                if skip == "residue" and b.residue is subject.residue:
+                    continue
+                if skip == "bonded" and b.residue is subject.residue and (b in subject.bonds or subject in b.bonds):
                     continue
                 dx, dy, dz = b.x - sx, b.y - sy, b.z - sz
                 d2 = dx * dx + dy * dy + dz * dz
